@@ -10,6 +10,7 @@ package main
 
 import (
 	"archive/zip"
+	"bytes"
 	"encoding/json"
 	"encoding/xml"
 	"fmt"
@@ -430,7 +431,7 @@ func c15Rnd(v c15Vec, id int, dir string) []c15Obs {
 		}
 	}
 	p := filepath.Join(dir, "m.3mf")
-	os.Remove(p)
+	c15Prefill(p, v.I)
 	render.To3MF(nil, p, &scriptRender3{ts: ts, batches: c15Batches(nt, r)})
 	if ms := decode3MF(p, &o); ms != nil {
 		o.Cnt, o.Nverts = len(ms.idx), len(ms.verts)
@@ -458,17 +459,56 @@ func c15Rnd(v c15Vec, id int, dir string) []c15Obs {
 	for i := 0; i < ns; i++ {
 		ls = append(ls, &sdf.Line2{v2.Vec{X: coord(), Y: coord()}, v2.Vec{X: coord(), Y: coord()}})
 	}
-	for _, kind := range []string{"todxf", "savedxf"} {
+	if ns > 0 && v.I%4 == 1 {
+		// mixed magnitudes in one drawing: one end point far away (the extent is then ~1e15 while the detail is ~scale)
+		k := r.Intn(ns)
+		ls[k][r.Intn(2)].Y = -1e15 * (1 + r.Float64())
+		if r.Intn(2) == 0 {
+			ls[r.Intn(ns)][r.Intn(2)].X = 3e13 * (1 + r.Float64())
+		}
+	}
+	for _, kind := range []string{"todxf", "savedxf", "dxfobj"} {
 		o := newC15Obs("mdxf", kind, id, v)
 		o.Mag, o.N = mag, ns
 		p := filepath.Join(dir, "m.dxf")
-		os.Remove(p)
-		if kind == "todxf" {
+		c15Prefill(p, v.I)
+		switch kind {
+		case "todxf":
 			render.ToDXF(nil, p, &scriptRender2{ls: ls, batches: c15Batches(ns, r)})
-		} else if err := render.SaveDXF(p, ls); err != nil {
-			o.Derr, o.Dmsg = 1, "SaveDXF: "+err.Error()
+		case "savedxf":
+			if err := render.SaveDXF(p, ls); err != nil {
+				o.Derr, o.Dmsg = 1, "SaveDXF: "+err.Error()
+			}
+		default:
+			// the drawing object used step by step: points first (they go to their own layer), then the segments,
+			// one by one and as a list
+			d := render.NewDXF(p)
+			if v.I%2 == 0 {
+				d.Points(v2.VecSet{{X: 1, Y: 2}, {X: -3, Y: 0.5}}, 0.25)
+			}
+			h := ns / 2
+			for _, l := range ls[:h] {
+				d.Line(l)
+			}
+			if v.I%4 == 1 {
+				d.Points(v2.VecSet{{X: 0, Y: 0}}, 0.1)
+			}
+			d.Lines(ls[h:])
+			if err := d.Save(); err != nil {
+				o.Derr, o.Dmsg = 1, "DXF.Save: "+err.Error()
+			}
 		}
 		ents := decodeDXF(p, &o)
+		if kind == "dxfobj" {
+			// only the LINE entities are the segments (the points are circles on their own layer)
+			var le []dxfLine
+			for _, e := range ents {
+				if e.typ == "LINE" {
+					le = append(le, e)
+				}
+			}
+			ents = le
+		}
 		o.Cnt = len(ents)
 		for i, e := range ents {
 			if e.typ != "LINE" || e.layer != "Lines" {
@@ -491,7 +531,7 @@ func c15Rnd(v c15Vec, id int, dir string) []c15Obs {
 		o := newC15Obs("msvg", kind, id, v)
 		o.Mag, o.N = mag, ns
 		p := filepath.Join(dir, "m.svg")
-		os.Remove(p)
+		c15Prefill(p, v.I)
 		if kind == "tosvg" {
 			render.ToSVG(nil, p, &scriptRender2{ls: ls, batches: c15Batches(ns, r)})
 		} else if err := render.SaveSVG(p, svgStyle, ls); err != nil {
@@ -517,7 +557,9 @@ func c15Rnd(v c15Vec, id int, dir string) []c15Obs {
 					o.Inexact++
 					return
 				}
-				bound := 0.5e-2 + ext*1e-12
+				// two decimals are printed; the value itself is ONE float64 subtraction of two inputs
+				bound := 0.5e-2 + math.Abs(want)*4e-16
+				_ = ext
 				if x := scaled(math.Abs(got-want), bound); x > o.MaxErr {
 					o.MaxErr = x
 				}
@@ -540,6 +582,16 @@ func c15Rnd(v c15Vec, id int, dir string) []c15Obs {
 		res = append(res, o)
 	}
 	return res
+}
+
+// c15Prefill: the output path either does not exist or already holds a (much) longer file of the same kind of
+// content - an export has to replace what is there, not write over its beginning.
+func c15Prefill(p string, i int) {
+	os.Remove(p)
+	if i%3 == 0 {
+		junk := bytes.Repeat([]byte("<!-- an earlier, longer export -->\n0\nSECTION\nPK\x03\x04 stale "), 6000)
+		os.WriteFile(p, junk, 0644)
+	}
 }
 
 // clusters3 counts single-linkage clusters of points whose coordinates all differ by less than
